@@ -11,8 +11,12 @@ def run(tier, seed):
     build_harness()
     th = tier == "thorough"
     tp = os.path.join(OUT, "traces", "C13-sweep.ndjson")
-    r = vh(["iso-sweep", "--seed", seed, "--pairs", 30000 if th else 5000, "--out", tp], timeout=1800)
-    recs = read_ndjson(tp); os.remove(tp)
+    recs, died = vh_records(["iso-sweep", "--seed", seed, "--pairs", 30000 if th else 5000], tp, timeout=1800 if th else 900)
+    if died:
+        g = died["during"]
+        run.violation({"kind": "crash", "prop": "C13", "rc": died["rc"], "n": g.get("n"), "n1": g.get("n1"), "dir": g.get("dir")}, [dict(g, crashed=True)], header={"exec": "iso-sweep"})
+    if not recs:
+        return run.finish()
     mid = recs[len(recs) // 2]
     run.sample({k: mid[k] for k in ("n", "E", "nw0", "n1", "E1", "nw1", "dir", "iso", "sub", "iter") if k in mid})
     judge(run, "C13", MODULE, recs, "C13 pairs")
